@@ -144,3 +144,18 @@ theorem stepPP_frame (cfg : Cfg) (p c : Nat) (s : Shared) (l : Locals) (b : Bool
   | _ => simp only [stepPP] <;> (repeat' split) <;> simp [dbgInUse] <;> (repeat' split) <;> simp
 
 end M
+
+namespace M
+
+theorem stepNG_fault (s : Shared) (b : Bool) (ng : NG) : (stepNG s b ng).1.fault = s.fault := by
+  cases ng <;> simp only [stepNG] <;> (repeat' split) <;> simp [Shared.setNode]
+
+theorem stepCD_fault (s : Shared) (cd : CD) (hf : s.fault = none) :
+    (stepCD s cd).1.fault = none ∨
+    (stepCD s cd).1.fault = some (.panic "start_cooldown: assert_eq!(NODE_USED, in_use.swap(..))") := by
+  cases cd <;> simp only [stepCD] <;> (try (left; simpa using hf))
+  split
+  · left; simpa using hf
+  · right; rw [setFault_fault_of_none _ _ (by simpa using hf)]
+
+end M
